@@ -222,7 +222,7 @@ func (c *Case) Describe() map[string]any {
 	}
 	return map[string]any{
 		"config": c.Cfg.String(),
-		"entry": fmt.Sprintf("level=%d time=%q name=%q msg=%q caller=%+v stack=%q", int8(c.Ent.Level), t, c.Ent.LoggerName, c.Ent.Message, c.Ent.Caller, c.Ent.Stack),
+		"entry":  fmt.Sprintf("level=%d time=%q name=%q msg=%q caller=%+v stack=%q", int8(c.Ent.Level), t, c.Ent.LoggerName, c.Ent.Message, c.Ent.Caller, c.Ent.Stack),
 		"with":   ctx,
 		"fields": Descs(c.Fields),
 		"faults": c.Faults,
